@@ -34,7 +34,7 @@ Theorem andersoncd_returned_point_consistent :
   (forall w Xw lip ws w' Xw', k_epoch K w Xw lip ws = Ok (w', Xw') -> Forall (fun j => (0 <= j)%Z) ws) ->
   (forall w Xw w_acc Xw_acc p_obj p_obj_acc,
      consI cfg X w Xw -> objective cfg K w Xw = Ok p_obj -> objective cfg K w_acc Xw_acc = Ok p_obj_acc ->
-     elt p_obj_acc p_obj = true -> consI cfg X w_acc Xw_acc) ->
+     elt p_obj_acc p_obj = true -> length w_acc = length w -> consI cfg X w_acc Xw_acc) ->
   forall w0 Xw0 out, consI cfg X w0 Xw0 -> solve cfg K (Some w0) (Some Xw0) = Ok out ->
   consI cfg X (o_w out) (o_Xw out).
 Proof. intros A. exact (@andersoncd_preserves_consistency A). Qed.
